@@ -66,6 +66,10 @@ class World (object):
       if k is not None and k not in cand: cand.append(k)
     for k in cand:
       o.append(("pout", k)); o.append(("fmod", k))
+    for k in ids:
+      # release a live buffer through FLOOD (the stored ingress port must be excluded) and through
+      # output:CONTROLLER (the release itself buffers the packet again while the old slot is still held)
+      o.append(("poutf", k)); o.append(("poutc", k))
     for v in (0, 64, 128, 0xffff):
       if v != self.miss_len: o.append(("cfg", v))
     return o
@@ -120,6 +124,50 @@ class World (object):
       return ("rx", p["buffer_id"] != W.NO_BUFFER, len(p["data"]))
     # buffer use
     k = op[1]
+    if kind in ("poutf", "poutc"):
+      f, inp = self.out[k]
+      acts = W.a_output(W.OFPP_FLOOD) if kind == "poutf" else W.a_output(W.OFPP_CONTROLLER, 64)
+      st.feed(W.packet_out(self.nxid(), acts, b"", buffer_id=k, in_port=W.OFPP_NONE))
+      emitted = st.take_out()
+      msgs, rest = W.split(st.drain())
+      ds = [W.decode(m) for m in msgs]
+      if any(d["type"] == W.ERROR for d in ds):
+        self.fail("use:error-for-live-id", "%s with live buffer %d was answered with an error" % (kind, k))
+      pins = [d for d in ds if d["type"] == W.PACKET_IN]
+      if kind == "poutf":
+        want = [(p, f) for p in range(1, 6) if p != inp]
+        if sorted(emitted) != sorted(want):
+          self.fail("use:flood-from-buffer", "releasing buffer %d (frame received on port %d) with FLOOD emitted on %r, expected every port but %d"
+                    % (k, inp, sorted(p for p, _ in emitted), inp))
+        if pins: self.fail("use:packet-in", "releasing a buffer with FLOOD produced a packet-in")
+        self.out.pop(k); self.last_used = k
+        return ("use-flood", len(emitted))
+      # output:CONTROLLER from a buffered packet: a new packet-in for the same frame; slot k is still held while the
+      # action runs, so the new id (if any slot is free) differs from k and from every outstanding id
+      if emitted: self.fail("use:unexpected-emission", "releasing a buffer to the controller emitted frames on %r" % [p for p, _ in emitted])
+      if len(pins) != 1:
+        self.fail("use:packet-in-count", "releasing buffer %d to the controller produced %d packet-ins" % (k, len(pins)))
+        self.out.pop(k); self.last_used = k
+        return ("use-ctl", len(pins))
+      p = pins[0]
+      if p["in_port"] != inp or p["reason"] != W.OFPR_ACTION or p["total_len"] != len(f):
+        self.fail("use:packet-in-fields", "packet-in for the re-sent buffer: in_port %r reason %r total_len %r, expected %r/%r/%r"
+                  % (p["in_port"], p["reason"], p["total_len"], inp, W.OFPR_ACTION, len(f)))
+      if p["buffer_id"] == W.NO_BUFFER:
+        if len(self.out) < self.pool:
+          self.fail("rx:not-buffered", "re-sent packet not buffered although %d of %d buffers are free" % (self.pool - len(self.out), self.pool))
+        if p["data"] != f: self.fail("rx:unbuffered-truncated", "unbuffered packet-in carries %d of %d bytes" % (len(p["data"]), len(f)))
+        self.out.pop(k)
+      else:
+        nb = p["buffer_id"]
+        if nb in self.out:
+          self.fail("rx:duplicate-id", "buffer id %d handed out while still outstanding (during the release of buffer %d)" % (nb, k))
+        if not f.startswith(p["data"]) or len(p["data"]) > 64:
+          self.fail("rx:data-length", "buffered packet-in carries %d bytes (limit 64) / not a prefix of the frame" % len(p["data"]))
+        self.out.pop(k)
+        self.out[nb] = (f, inp)
+      self.last_used = k
+      return ("use-ctl", p["buffer_id"] != W.NO_BUFFER)
     if kind == "pout":
       st.feed(W.packet_out(self.nxid(), W.a_output(TARGET), b"", buffer_id=k, in_port=W.OFPP_NONE))
     else:
@@ -183,7 +231,7 @@ def run (cfg):
   rep.assumptions = ["frames use an ethertype without a parser so POX carries the payload opaquely",
                      "state key contains the whole buffer pool, config and the model, so merged states have equal futures"]
   for pool in pools:
-    bfs(make_expand(pool), depth, rep, workers=cfg.workers, seed=cfg.seed,
+    bfs(make_expand(pool), depth if pool <= 2 else depth - 1, rep, workers=cfg.workers, seed=cfg.seed,
         max_states=cfg.pick(60000, 600000))
   return rep
 
